@@ -14,6 +14,7 @@ import (
 	"strconv"
 	"strings"
 	"sync"
+	"sync/atomic"
 	"testing"
 	"testing/synctest"
 
@@ -94,6 +95,7 @@ type runner struct {
 
 	hgate      map[string]chan hcmd
 	cbCancel   map[string]context.CancelFunc
+	logCancel  atomic.Pointer[logCancel]
 	batchOf    map[int64]string // goroutine id -> tag of first member of its batch
 	assigned   []*jrpc2.Request // every request in assignment order (srv.assign)
 	badPush    bool             // pushes carry parameters that cannot be marshalled (step "badpush")
@@ -180,6 +182,11 @@ func outcome(tag, out string, ctx context.Context) (any, error) {
 		return nil, jrpc2.Errorf(jrpc2.Code(n), "tag=%s failed", tag)
 	}
 	return tag, nil
+}
+
+type logCancel struct {
+	text string
+	f    func()
 }
 
 func (r *runner) doCallback(ctx context.Context, srv *jrpc2.Server, c string) {
@@ -604,6 +611,11 @@ func (r *runner) doStep(st Step) {
 			kind = "close"
 		}
 		s.HoldOp(kind)
+	case "logcancel": // the context of callback st.C ends at the moment the next log line containing st.Kind is written (by whoever writes it, where it writes it)
+		if c := r.cbCancel[st.C]; c != nil {
+			name := st.C
+			r.logCancel.Store(&logCancel{text: st.Kind, f: func() { r.rec.Log("CtxEnd", "c", name); c() }})
+		}
 	case "holdlog": // hold whoever writes the next log line containing st.Kind, where it writes it
 		s.HoldLog(st.Kind)
 	case "unhold":
@@ -728,7 +740,17 @@ func Run(t *testing.T, sc *Scenario, emit func(evs []vh.Event, stats map[string]
 		r.ch.InCloseHook = func() { s.InOp("close", "s1") }
 		conc := sc.Opts.Conc
 		sopts := &jrpc2.ServerOptions{Concurrency: conc, AllowPush: sc.Opts.Push, DisableBuiltin: sc.Opts.NoBuiltin}
-		sopts.Logger = func(text string) { s.InLog(text) } // (a scheduling point where a scenario asks for one, nothing else)
+		sopts.Logger = func(text string) { // (a scheduling point, or the instant of a cancellation, where a scenario asks for one; nothing else)
+			// the reader has handed a reply to its callback (its log line there follows the hand-over, under the lock): from
+			// here on the reply is what Callback returns
+			if _, id, ok := strings.Cut(text, "Received response for callback "); ok {
+				rec.Log("CbTaken", "id", strings.Trim(id, `"`))
+			}
+			if lc := r.logCancel.Load(); lc != nil && strings.Contains(text, lc.text) && r.logCancel.CompareAndSwap(lc, nil) {
+				lc.f()
+			}
+			s.InLog(text)
+		}
 		if sc.Opts.BaseCtx {
 			r.baseCtx, r.baseCancel = context.WithCancel(context.Background())
 			defer r.baseCancel()
